@@ -37,12 +37,16 @@ WHITELIST = [
     dict(cls=None, fn="ConvertSymbolToSignedInt", params=["unsigned int"]),
     dict(cls=None, fn="MostSignificantBit", params=["unsigned int"]),
     dict(cls=None, fn="AddAsUnsigned", params=["int", "int"]),
+    dict(cls=None, fn="IntSqrt", loop_fuel=64),
     dict(cls=None, fn="ComputeRAnsUnclampedPrecision", params=["int"]),
     dict(cls=None, fn="ComputeRAnsPrecisionFromUniqueSymbolsBitLength", params=["int"]),
     dict(cls=None, fn="mem_put_le16"),
     dict(cls=None, fn="mem_put_le24"),
     dict(cls=None, fn="ans_write_end"),
     dict(cls="RAnsDecoder", fn="read_init", targs=[12]),
+    dict(cls=None, fn="ans_read_init"),
+    dict(cls=None, fn="DecodeVarintUnsigned", params=["int", "unsigned int *", "draco::DecoderBuffer *"], suffix="_u32"),
+    dict(cls=None, fn="DecodeVarintUnsigned", params=["int", "unsigned long *", "draco::DecoderBuffer *"], suffix="_u64"),
     dict(cls=None, fn="DecodeVarintUnsigned", params=["int", "unsigned int *", "draco::DecoderBuffer *"], suffix="_depthCheck_u32",
          slice=dict(scope="body", first_decl="max_depth", count=2)),
     dict(cls=None, fn="DecodeVarintUnsigned", params=["int", "unsigned long *", "draco::DecoderBuffer *"], suffix="_depthCheck_u64",
@@ -50,6 +54,12 @@ WHITELIST = [
     dict(cls=None, fn="EncodeVarint", params=["unsigned int", "draco::EncoderBuffer *"], suffix="_u32"),
     dict(cls=None, fn="EncodeVarint", params=["unsigned long", "draco::EncoderBuffer *"], suffix="_u64"),
     dict(cls="RAnsSymbolEncoder", fn="EncodeTable", suffix="_sizeClass", slice=dict(first_decl="num_extra_bytes", count=2)),
+    dict(cls="MeshSequentialDecoder", fn="DecodeConnectivity", suffix="_indexWidth",
+         chain=dict(var="num_points", inputs=["bitstream_version"])),
+    dict(cls="MeshSequentialEncoder", fn="EncodeConnectivity", suffix="_indexWidth",
+         chain=dict(var="num_points", inputs=["num_points"])),
+    dict(cls=None, fn="ComputeParallelogramPrediction", suffix="_component",
+         slice=dict(first_decl="in_data_next_off", count=5)),
     dict(cls="OctahedronToolBox", fn="IsInDiamond"),
     dict(cls="OctahedronToolBox", fn="InvertDiamond"),
     dict(cls="OctahedronToolBox", fn="ModMax"),
@@ -95,6 +105,10 @@ TU_TEXT = """\
 #include "draco/core/varint_encoding.h"
 #include "draco/core/varint_decoding.h"
 #include "draco/core/draco_types.cc"
+#include "draco/compression/attributes/prediction_schemes/mesh_prediction_scheme_parallelogram_shared.h"
+#include "draco/mesh/corner_table.h"
+#include "draco/compression/mesh/mesh_sequential_decoder.cc"
+#include "draco/compression/mesh/mesh_sequential_encoder.cc"
 static_assert(std::is_same<int8_t, signed char>::value && std::is_same<uint8_t, unsigned char>::value, "");
 static_assert(std::is_same<int16_t, short>::value && std::is_same<uint16_t, unsigned short>::value, "");
 static_assert(std::is_same<int32_t, int>::value && std::is_same<uint32_t, unsigned int>::value, "");
@@ -105,6 +119,8 @@ namespace draco {
 template uint32_t ConvertSignedIntToSymbol<int32_t>(int32_t);
 template int32_t ConvertSymbolToSignedInt<uint32_t>(uint32_t);
 template int32_t AddAsUnsigned<int32_t>(int32_t, int32_t);
+template bool ComputeParallelogramPrediction<CornerTable, int32_t>(int, const CornerIndex, const CornerTable *,
+    const std::vector<int32_t> &, const int32_t *, int, int32_t *);
 template class RAnsSymbolEncoder<12>;
 template class RAnsDecoder<12>;
 template bool DecodeVarint<uint32_t>(uint32_t *, DecoderBuffer *);
@@ -175,7 +191,7 @@ class CT:
             return "Int × Int"
         if self.kind == "wlog":
             return "List (Int × Int)"
-        if self.kind == "sink":
+        if self.kind in ("sink", "stream"):
             return "List Int"
         raise XlateError(f"no Lean type for C type {self!r}")
 
@@ -383,6 +399,9 @@ class Index:
                 stack.append((c, n))
 
     def class_of(self, decl):
+        if decl.get("parentDeclContextId") in self.byid and \
+                self.byid[decl["parentDeclContextId"]].get("kind") in ("CXXRecordDecl", "ClassTemplateSpecializationDecl"):
+            return self.byid[decl["parentDeclContextId"]]
         p = self.parent.get(decl["id"])
         while p is not None and p.get("kind") not in ("CXXRecordDecl", "ClassTemplateSpecializationDecl"):
             p = self.parent.get(p.get("id"))
@@ -408,6 +427,9 @@ class Index:
                     if not any(c.get("kind") == "TemplateArgument" for c in n.get("inner", [])):
                         continue
                     par = self.parent.get(par.get("id"))
+                if (par is None or par.get("kind") not in ("CXXRecordDecl", "ClassTemplateSpecializationDecl")) and \
+                        n.get("parentDeclContextId") in self.byid:
+                    par = self.byid[n["parentDeclContextId"]]      # out-of-line definition
                 if par is None or par.get("name") != cls:
                     continue
                 if par.get("kind") == "CXXRecordDecl":
@@ -531,6 +553,7 @@ class Info:
         self.pointwise = False
         self.ret_ct = None
         self.fueled = False         # self-recursive: first parameter `fuel : Nat`, result `Option …`
+        self.optional = False       # contains bounded loops: result `Option …`
         self.nparams = 0
 
 
@@ -601,31 +624,43 @@ class Translator:
     def wl_entry(self, decl):
         cls = self.ix.class_of(decl)
         ptys = [repr(node_type(c)) for c in decl.get("inner", []) if c.get("kind") == "ParmVarDecl"]
+        hits = []
         for w in self.wl:
             if w["fn"] == decl.get("name") and (w.get("cls") == (cls.get("name") if cls else None)):
                 if w.get("params") is not None and [repr(parse_type(q)) for q in w["params"]] != ptys:
                     continue
-                return w
-        return {}
+                hits.append(w)
+        whole = [w for w in hits if not (w.get("slice") or w.get("chain"))]
+        return (whole or hits or [{}])[0]
 
-    def translate(self, decl):
-        i = decl["id"]
-        if i in self.done:
-            return self.done[i]
-        if i in self.in_progress:
-            raise XlateError(f"recursive call of {decl.get('name')}")
-        self.in_progress.add(i)
-        try:
+    def translate(self, decl, w=None):
+        """w: the whitelist entry (a whole function, a slice or a chain of it); calls from other functions (w = None)
+        mean the whole function"""
+        if w is None:
             w = self.wl_entry(decl)
+            if w.get("slice") or w.get("chain"):
+                w = {k: v for k, v in w.items() if k not in ("slice", "chain", "suffix")}
+        part = bool(w.get("slice") or w.get("chain"))
+        key = decl["id"] + ("#" + w.get("suffix", "") if part else "")
+        i = decl["id"]
+        if key in self.done:
+            return self.done[key]
+        if key in self.in_progress:
+            raise XlateError(f"recursive call of {decl.get('name')}")
+        self.in_progress.add(key)
+        try:
             ft = FuncTranslator(self, decl, pointwise=bool(w.get("pointwise")), suffix=w.get("suffix", ""),
-                                lazy_struct=bool(w.get("slice")))
+                                lazy_struct=part)
+            ft.loop_fuel = w.get("loop_fuel")
             if w.get("slice"):
                 ft.select_slice(w["slice"])
+            if w.get("chain"):
+                ft.select_chain(w["chain"])
             info = ft.run()
         finally:
-            self.in_progress.discard(i)
-        self.done[i] = info
-        self.order.append(i)
+            self.in_progress.discard(key)
+        self.done[key] = info
+        self.order.append(key)
         return info
 
     def trait_value(self, node, func_decl):
@@ -676,7 +711,12 @@ class FuncTranslator:
     def __init__(self, tr, decl, pointwise, suffix="", lazy_struct=False):
         self.tr, self.ix, self.decl, self.pointwise = tr, tr.ix, decl, pointwise
         self.suffix = suffix
+        self.loop_fuel = None
         self.slice = None
+        self.chain = False
+        self.abs_inputs = {}
+        self.slice_free = {}
+        self.slice_free_ptrs = set()
         self.cls = self.ix.class_of(decl)
         self.need_input = set()     # out locations that must also be inputs
         self.body = [c for c in decl.get("inner", []) if c.get("kind") == "CompoundStmt"][0]
@@ -744,6 +784,7 @@ class FuncTranslator:
                     uses(c)
         for st in self.slice:
             uses(st)
+        self.slice_free_ptrs = {vid for vid, (nm, t) in self.slice_free.items() if t.kind == "ptr"}
         wrapper = {"kind": "CompoundStmt", "inner": self.slice}
         self.body = wrapper
         self.parms = []
@@ -752,6 +793,75 @@ class FuncTranslator:
             self.struct_cls = self.tr.struct_of(self.cls)
         self.slice_ret = self.ret_ct
         self.ret_ct = self.ret_ct if _contains(wrapper, lambda n: n.get("kind") == "ReturnStmt") else CT("void")
+
+    def select_chain(self, spec):
+        """the decision skeleton of an `if / else if / …` chain: the function that maps the variables of the
+        conditions to the ordinal of the branch that is taken (0, 1, …; the final `else` or fall-through is the last
+        ordinal).  The chain is the first `if` whose condition compares `<var>` with a literal, where `<var>` is a variable or a
+        call of a zero-argument member function of that name; calls of the zero-argument member functions listed in
+        `inputs` are inputs of the skeleton (they are assumed to be pure getters)."""
+        var = spec["var"]
+        self.abs_inputs = {}
+        abs_names = set(spec.get("inputs", []))
+
+        def is_var(x):
+            x = _strip_casts(x)
+            if x.get("kind") == "DeclRefExpr" and x["referencedDecl"].get("name") == var:
+                return True
+            return x.get("kind") == "CXXMemberCallExpr" and x["inner"][0].get("name") == var and len(x["inner"]) == 1
+
+        found = []
+
+        def walk(x):
+            if found:
+                return
+            if x.get("kind") == "IfStmt":
+                c = _strip_casts(x["inner"][0])
+                if c.get("kind") == "BinaryOperator" and c.get("opcode") in ("<", "<=", ">", ">=", "==", "!=") and is_var(c["inner"][0]) and \
+                        _strip_casts(c["inner"][1]).get("kind") == "IntegerLiteral":
+                    found.append(x)
+                    return
+            for ch in x.get("inner", []) or []:
+                if isinstance(ch, dict):
+                    walk(ch)
+        walk(self.body)
+        if not found:
+            raise XlateError(f"chain: no `if ({var} <comparison> literal)` found")
+        conds, node = [], found[0]
+        while node is not None and node.get("kind") == "IfStmt":
+            if node.get("hasInit") or node.get("hasVar"):
+                raise XlateError("chain: if with init/condition variable")
+            conds.append(node["inner"][0])
+            node = node["inner"][2] if len(node["inner"]) > 2 else None
+        ity = {"qualType": "int"}
+
+        def ret(i):
+            return {"kind": "CompoundStmt", "inner": [{"kind": "ReturnStmt", "inner": [
+                {"kind": "IntegerLiteral", "value": str(i), "type": ity}]}]}
+        tree = ret(len(conds))
+        for i in range(len(conds) - 1, -1, -1):
+            tree = {"kind": "IfStmt", "inner": [conds[i], ret(i), tree]}
+        inside = set()
+        self.slice_free = {}
+
+        def uses(x):
+            if x.get("kind") == "CXXMemberCallExpr" and len(x["inner"]) == 1 and x["inner"][0].get("name") in abs_names:
+                self.abs_inputs.setdefault(x["inner"][0]["name"], node_type(x))
+                return
+            if x.get("kind") == "DeclRefExpr" and x["referencedDecl"].get("kind") in ("VarDecl", "ParmVarDecl") and \
+                    x.get("nonOdrUseReason") != "constant":
+                self.slice_free.setdefault(x["referencedDecl"]["id"], (x["referencedDecl"].get("name"), node_type(x)))
+            for c in x.get("inner", []) or []:
+                if isinstance(c, dict):
+                    uses(c)
+        for c in conds:
+            uses(c)
+        self.body = {"kind": "CompoundStmt", "inner": [tree]}
+        self.parms = []
+        self.chain = True
+        self.uses_this = False
+        self.struct_cls = None
+        self.ret_ct = CT("int", signed=True, bits=32)
 
     def _ret_type(self):
         """the result type: the (desugared) type of the returned expressions — clang converts every returned
@@ -855,6 +965,7 @@ class FuncTranslator:
         self.out_locs = []
         self.sptr = {}
         self.sink_params = set()
+        self.stream_params = {}
         self.has_sink = False
         self.has_log = False
         self.log_base = None
@@ -864,6 +975,9 @@ class FuncTranslator:
         info.nparams = len(self.parms)
         self.fueled = _contains(self.body, lambda n: n.get("kind") == "CallExpr" and self._callee_id(n) == self.decl["id"])
         info.fueled = self.fueled
+        # `while` / `do` loops (outside pointwise mode): bounded iteration `cWhile fuel`, result `Option …`
+        self.optional = (not self.pointwise) and _contains(self.body, lambda n: n.get("kind") in ("WhileStmt", "DoStmt"))
+        info.optional = self.optional
         for k, p in enumerate(self.parms):
             t = node_type(p)
             nm = p.get("name") or f"arg{k}"
@@ -913,6 +1027,12 @@ class FuncTranslator:
                 info.params.append((ln, "Int → Int", ("src", k)))
             elif t.kind == "ptr" and t.to.kind == "void":
                 ctx.bptr["v:" + p["id"]] = ("p:" + p["id"], "0")
+            elif t.kind == "ptr" and t.to.kind == "class" and t.to.name.split("::")[-1] == "DecoderBuffer":
+                # a byte source with a position: the list of the bytes not yet consumed
+                ln = self._alloc(nm)
+                self.stream_params[p["id"]] = k
+                ctx.types["in:"], ctx.names["in:"], ctx.vals["in:"] = CT("stream"), ln, ln
+                info.params.append((ln, "List Int", ("stream", k)))
             elif t.kind == "ptr" and t.to.kind == "class" and t.to.name.split("::")[-1] == "EncoderBuffer":
                 self.sink_params.add(p["id"])
                 self.has_sink = True
@@ -933,7 +1053,24 @@ class FuncTranslator:
                     ctx.vals[loc] = f"{ln}.{lean_ident(f)}"
             else:
                 self.fail(f"parameter `{nm}` of type {t!r} is not supported")
-        if self.slice is not None:
+        if self.chain:
+            for nm, t in self.abs_inputs.items():
+                ln = self._alloc(nm)
+                self.abs_names = getattr(self, "abs_names", {})
+                self.abs_names[nm] = (ln, CT(t.kind, t.signed, t.bits))
+                info.params.append((ln, t.lean(), ("val", -1)))
+        if self.slice is not None or self.chain:
+            self.wide_ptrs = set()
+            for vid, (nm, t) in list(self.slice_free.items()):
+                if t.kind == "ptr" and t.to.kind == "int":
+                    self.wide_ptrs.add(vid)
+                    if t.to.const:
+                        ln = self._alloc(nm)
+                        ctx.bptr["v:" + vid] = ("src:" + ln, "0")
+                        info.params.append((ln, "Int → Int", ("src", -1)))
+                    else:
+                        ctx.bptr["v:" + vid] = ("p:" + vid, "0")
+                    del self.slice_free[vid]
             for vid, (nm, t) in self.slice_free.items():
                 if t.kind not in ("int", "bool"):
                     self.fail(f"slice: free variable `{nm}` of type {t!r}")
@@ -966,6 +1103,8 @@ class FuncTranslator:
         if self.has_log:
             info.outs.append(("log",))
             ctx.types["w:"], ctx.names["w:"], ctx.vals["w:"] = CT("wlog"), self._alloc("written"), "[]"
+        if self.stream_params:
+            info.outs.append(("stream",))
         if self.has_sink:
             info.outs.append(("sink",))
             ctx.types["w:"], ctx.names["w:"], ctx.vals["w:"] = CT("sink"), self._alloc("appended"), "[]"
@@ -985,7 +1124,7 @@ class FuncTranslator:
                 out_tys.append(self.sptr[o[2]][1])
             elif o[0] == "log":
                 out_tys.append("List (Int × Int)")
-            elif o[0] == "sink":
+            elif o[0] in ("sink", "stream"):
                 out_tys.append("List Int")
             else:
                 out_tys.append("Int")
@@ -1002,6 +1141,8 @@ class FuncTranslator:
         if self.fueled:
             head = f"def {info.lean_name} (fuel : Nat){sig} : Option ({rty}) :="
             lines = ["match fuel with", "| 0 => none", "| fuel + 1 =>"] + ["  " + l for l in lines]
+        elif self.optional:
+            head = f"def {info.lean_name}{sig} : Option ({rty}) :="
         else:
             head = f"def {info.lean_name}{sig} : {rty} :="
         info.text = "\n".join([head] + ["  " + l for l in lines])
@@ -1053,7 +1194,7 @@ class FuncTranslator:
             k = x.get("kind")
             if k == "BinaryOperator" and x.get("opcode") == "=":
                 l = _strip(x["inner"][0])
-                if l.get("kind") == "ArraySubscriptExpr" and self._is_bptr_type(node_type(l["inner"][0])):
+                if l.get("kind") == "ArraySubscriptExpr" and (self._is_bptr_type(node_type(l["inner"][0])) or self._ptr_is_free_nonconst(l["inner"][0])):
                     return True
                 if l.get("kind") == "UnaryOperator" and l.get("opcode") == "*" and self._is_bptr_type(node_type(l["inner"][0])):
                     return True
@@ -1076,6 +1217,24 @@ class FuncTranslator:
     @staticmethod
     def _is_bptr_type(t):
         return t.kind == "ptr" and ((t.to.kind == "int" and t.to.bits == 8) or t.to.kind == "void")
+
+    def _ptr_is_free_nonconst(self, e):
+        b = _strip(e)
+        if b.get("kind") != "DeclRefExpr" or self.slice is None:
+            return False
+        t = node_type(b)
+        return t.kind == "ptr" and t.to.kind == "int" and not t.to.const and b["referencedDecl"]["id"] in self.slice_free_ptrs
+
+    def _is_mem_ptr(self, e):
+        """a pointer expression that is modelled as a source / write log: byte pointers, and (in slices) the integer
+        array pointers that are free variables of the slice"""
+        t = node_type(e)
+        if self._is_bptr_type(t):
+            return True
+        b = _strip(e)
+        while b.get("kind") == "BinaryOperator" and b.get("opcode") in ("+", "-"):
+            b = _strip(b["inner"][0])
+        return b.get("kind") == "DeclRefExpr" and b["referencedDecl"]["id"] in getattr(self, "wide_ptrs", ())
 
     def _assigned_fields(self, n):
         out = set()
@@ -1125,6 +1284,8 @@ class FuncTranslator:
                 parts.append("{ " + ln + " with " + upd + " }")
             elif o[0] in ("log", "sink"):
                 parts.append(ctx.vals["w:"])
+            elif o[0] == "stream":
+                parts.append(ctx.vals["in:"])
             else:
                 loc = [l for (l, k) in self.out_locs if k == o[1]][0]
                 v = ctx.vals[loc]
@@ -1132,7 +1293,7 @@ class FuncTranslator:
                     self.need_input.add(loc)
                     raise _Retry()
                 parts.append(v)
-        if self.fueled:
+        if self.fueled or self.optional:
             return ["some " + ("(" + ", ".join(parts) + ")" if len(parts) > 1 else "(" + parts[0] + ")")]
         return [tuple_text(parts)]
 
@@ -1295,6 +1456,8 @@ class FuncTranslator:
             return self.switch_stmt(s, rest, ctx, k)
         if kind == "ForStmt":
             return self.for_stmt(s, rest, ctx, k)
+        if kind in ("WhileStmt", "DoStmt") and not self.pointwise:
+            return self.loop_stmt(s, rest, ctx, k)
         lines = []
         self.simple(s, ctx, lines)
         pre, self.pre = self.pre, []
@@ -1310,6 +1473,24 @@ class FuncTranslator:
         inner = s.get("inner", [])
         if s.get("hasInit") or s.get("hasVar"):
             self.fail("if with init/condition variable", s)
+        dec = self._decode_byte_pattern(inner[0], ctx)
+        if dec is not None:
+            # `if (!buffer->Decode(&x)) S` for a one-byte x: S runs when the source is exhausted (and must return),
+            # otherwise x is the next byte and the source advances
+            if len(inner) > 2:
+                self.fail("`if (!buffer->Decode(&x))` with an else branch", s)
+            tl = self.stmts([inner[1]], ctx.copy(), lambda c: self.fail("the failure branch of `buffer->Decode` does not return", s))
+            c2 = ctx.copy()
+            lines2 = []
+            hd = self._alloc("byte")
+            tlname = ctx.names["in:"]
+            self.assign(c2, dec, hd, lines2)
+            self.nassign += 1
+            c2.vals["in:"] = tlname
+            c2.ver["in:"] = self.nassign
+            rl = lines2 + self.stmts(rest, c2, k)
+            cur = ctx.vals["in:"]
+            return [f"match {cur} with", "| [] =>"] + ["  " + l for l in tl] + [f"| {hd} :: {tlname} =>"] + ["  " + l for l in rl]
         cond = self.cond(inner[0], ctx)
         pre, self.pre = self.pre, []
         th = [inner[1]]
@@ -1317,7 +1498,7 @@ class FuncTranslator:
         if cond in ("True", "False"):
             # a compile-time constant of the instantiation (type trait): only the live branch exists
             return self._wrap_pre(pre, self.stmts((th if cond == "True" else el) + rest, ctx, k))
-        if _contains(s, lambda n: n.get("kind") == "ReturnStmt") or self.fueled or pre:
+        if _contains(s, lambda n: n.get("kind") == "ReturnStmt") or self.fueled or self.optional or pre:
             cont = lambda c: self.stmts(rest, c, k)
             tl = self.stmts(th, ctx.copy(), cont)
             elc = self.stmts(el, ctx.copy(), cont)
@@ -1386,6 +1567,26 @@ class FuncTranslator:
                 ctx.ver[l] = self.nassign
         return lines + self.stmts(rest, ctx, k)
 
+    def _decode_byte_pattern(self, c, ctx):
+        """`!buffer->Decode(&x)` with `buffer` this function's DecoderBuffer and `x` a one-byte integer lvalue -> loc of x"""
+        c = _strip(c)
+        if c.get("kind") != "UnaryOperator" or c.get("opcode") != "!":
+            return None
+        e = _strip(c["inner"][0])
+        if e.get("kind") != "CXXMemberCallExpr" or e["inner"][0].get("name") != "Decode" or len(e["inner"]) != 2:
+            return None
+        obj = _strip(e["inner"][0]["inner"][0])
+        if obj.get("kind") != "DeclRefExpr" or obj["referencedDecl"]["id"] not in self.stream_params:
+            return None
+        a = _strip(e["inner"][1])
+        if a.get("kind") != "UnaryOperator" or a.get("opcode") != "&":
+            self.fail("DecoderBuffer::Decode with an argument that is not `&lvalue`", c)
+        loc = self.lvalue(a["inner"][0], ctx)
+        t = self.loc_type(ctx, loc)
+        if t.kind != "int" or t.bits != 8 or t.signed:
+            self.fail("DecoderBuffer::Decode of something other than one unsigned byte", c)
+        return loc
+
     def switch_stmt(self, s, rest, ctx, k):
         inner = s.get("inner", [])
         v, t = self.ev(inner[0], ctx)
@@ -1440,6 +1641,68 @@ class FuncTranslator:
             ind += "  "
         bl = self.stmts(rest, ctx, k)
         return lines + [ind + l for l in bl]
+
+    def loop_stmt(self, s, rest, ctx, k):
+        """`while (c) B` / `do B while (c)`: at most `loop_fuel` iterations (`CInt.cWhile`; `none` when the bound is
+        reached with the condition still true).  The loop state is the tuple of the variables assigned in B."""
+        fuel = self.loop_fuel
+        if not fuel:
+            self.fail("loop without a `loop_fuel` bound in the whitelist", s)
+        inner = [c for c in s.get("inner", []) if c.get("kind")]
+        if s["kind"] == "WhileStmt":
+            if len(inner) != 2:
+                self.fail("while with a condition variable", s)
+            cnode, body = inner
+        else:
+            body, cnode = inner
+        if _contains(body, lambda n: n.get("kind") in ("ReturnStmt", "BreakStmt", "ContinueStmt", "GotoStmt", "WhileStmt", "DoStmt", "ForStmt")):
+            self.fail("return/break/continue or a nested loop inside a loop", s)
+        # which locations does the body assign?
+        snap = (set(self.used), self.tmp, self.nassign)
+        trial = ctx.copy()
+        ends = []
+        self.stmts([body], trial, lambda c: (ends.append(c), ["@@"])[1])
+        if len(ends) != 1:
+            self.fail("loop body with branches that are not joined", s)
+        state = [l for l in ctx.vals if ends[0].ver.get(l) != ctx.ver.get(l)]
+        self.used, self.tmp, self.nassign = snap
+        if not state:
+            self.fail("loop that assigns nothing", s)
+        for l in state:
+            if ctx.vals[l] is None:
+                self.fail("loop state variable that is not initialised", s)
+        tys = [ctx.types[l].lean() for l in state]
+
+        def lam(node_is_cond):
+            c = ctx.copy()
+            lines = []
+            for i, l in enumerate(state):
+                nm = c.names[l]
+                lines.append(f"let {nm} : {tys[i]} := {proj('st', i, len(state))}")
+                c.vals[l] = nm
+            if node_is_cond:
+                lines.append(f"decide ({self.cond(cnode, c)})")
+                if self.pre:
+                    self.fail("loop condition with effects", s)
+            else:
+                lines += self.stmts([body], c, lambda cc: [tuple_text([cc.vals[l] for l in state])])
+            if any(x.rstrip().endswith(":=") or x.lstrip().startswith(("if ", "else", "match ", "|")) for x in lines):
+                self.fail("loop body / condition with branches", s)
+            return "(fun st => " + "; ".join(x.strip() for x in lines) + ")"
+        init = tuple_text([ctx.vals[l] for l in state])
+        lines = []
+        if s["kind"] == "DoStmt":
+            # the body once, then the loop
+            tail = []
+            self.tmp += 1
+            return self.stmts([body, {"kind": "WhileStmt", "inner": [cnode, body]}] + rest, ctx, k)
+        self.tmp += 1
+        rn = self._alloc(f"loop{self.tmp}")
+        pre = [f"@@BIND {rn} := cWhile {fuel} {lam(True)} {lam(False)} {init}"]
+        after = []
+        for i, l in enumerate(state):
+            self.assign(ctx, l, proj(rn, i, len(state)), after)
+        return self._wrap_pre(pre, after + self.stmts(rest, ctx, k))
 
     def for_stmt(self, s, rest, ctx, k):
         if not self.pointwise:
@@ -1518,7 +1781,7 @@ class FuncTranslator:
         if kind == "BinaryOperator" and s.get("opcode") == "=" and not self.pointwise:
             l0 = _strip(s["inner"][0])
             tgt = None
-            if l0.get("kind") == "ArraySubscriptExpr" and self._is_bptr_type(node_type(l0["inner"][0])):
+            if l0.get("kind") == "ArraySubscriptExpr" and self._is_mem_ptr(l0["inner"][0]):
                 b, o = self.ev_bptr(l0["inner"][0], ctx)
                 iv, it = self.ev(l0["inner"][1], ctx)
                 tgt = (b, iv if o == "0" else f"({o} + {iv})")
@@ -1615,7 +1878,7 @@ class FuncTranslator:
                     return ctx.bptr[key]
                 return (f"g:{obj['referencedDecl']['id']}:{n['name']}", "0")
             self.fail("pointer field", n)
-        if k == "BinaryOperator" and n.get("opcode") in ("+", "-") and self._is_bptr_type(node_type(n["inner"][0])):
+        if k == "BinaryOperator" and n.get("opcode") in ("+", "-") and self._is_mem_ptr(n["inner"][0]):
             b, o = self.ev_bptr(n["inner"][0], ctx)
             v, vt = self.ev(n["inner"][1], ctx)
             if vt.kind != "int":
@@ -1686,17 +1949,27 @@ class FuncTranslator:
             self.fail("call with effects inside `&&`, `||` or `?:`", n)
         args = n["inner"][1:]
         kinds = [o[0] for o in info.outs]
-        if any(x not in ("ret", "sink", "log") for x in kinds):
-            self.fail(f"call of `{name}` with output parameters inside an expression", n)
+        if any(x not in ("ret", "sink", "log", "out", "stream") for x in kinds):
+            self.fail(f"call of `{name}` that modifies an object inside an expression", n)
         texts = []
         for (ln, ty, how) in info.params:
-            if how[0] != "val":
-                self.fail(f"call of `{name}` with a pointer argument", n)
-            v, vt = self.ev(args[how[1]], ctx)
-            texts.append(self.convert(v, vt, node_type(cparms[how[1]]), n))
+            if how[0] == "val":
+                v, vt = self.ev(args[how[1]], ctx)
+                texts.append(self.convert(v, vt, node_type(cparms[how[1]]), n))
+            elif how[0] == "deref" and not self.pointwise:
+                texts.append(self.read(ctx, self.ptr_arg_loc(args[how[1]], ctx), n))
+            elif how[0] == "stream":
+                a = _strip(args[how[1]])
+                if not (a.get("kind") == "DeclRefExpr" and a["referencedDecl"]["id"] in self.stream_params):
+                    self.fail(f"call of `{name}`: the source argument is not this function's DecoderBuffer", n)
+                texts.append(ctx.vals["in:"])
+            else:
+                self.fail(f"call of `{name}` with an unsupported pointer argument", n)
         off = None
         for j, q in enumerate(cparms):
             qt = node_type(q)
+            if qt.kind == "ptr" and qt.to.kind == "class" and qt.to.name.split("::")[-1] == "DecoderBuffer":
+                continue
             if qt.kind == "ptr" and qt.to.kind == "class":
                 a = _strip(args[j])
                 if not (a.get("kind") == "DeclRefExpr" and a["referencedDecl"]["id"] in self.sink_params):
@@ -1716,8 +1989,8 @@ class FuncTranslator:
         if info.fueled:
             self.pre.append(f"@@BIND {rn} := {callt}")
         else:
-            tys = [("Int" if o[0] == "ret" and o[1].kind == "int" else "Bool" if o[0] == "ret" else
-                    "List Int" if o[0] == "sink" else "List (Int × Int)") for o in info.outs]
+            tys = [("Int" if o[0] == "ret" and o[1].kind == "int" else "Bool" if o[0] == "ret" else "Int" if o[0] == "out" else
+                    "List Int" if o[0] in ("sink", "stream") else "List (Int × Int)") for o in info.outs]
             self.pre.append(f"let {rn} : {tuple_type(tys)} := {callt}")
         ret = None
         for i, o in enumerate(info.outs):
@@ -1726,6 +1999,10 @@ class FuncTranslator:
                 ret = (pr, o[1])
             elif o[0] == "sink":
                 self.assign(ctx, "w:", f"({ctx.vals['w:']} ++ {pr})", self.pre)
+            elif o[0] == "stream":
+                self.assign(ctx, "in:", pr, self.pre)
+            elif o[0] == "out":
+                self.assign(ctx, self.ptr_arg_loc(args[o[1]], ctx), pr, self.pre)
             else:
                 if off is None:
                     self.fail(f"call of `{name}` without a byte pointer", n)
@@ -1742,7 +2019,7 @@ class FuncTranslator:
         """a call whose results are its output parameters: `f(a, &x, &y);`"""
         name, callee, info, cparms = self.resolve_callee(n, ctx)
         args = n["inner"][1:]
-        if any(o[0] in ("sink", "log") for o in info.outs) or info.fueled:
+        if any(o[0] in ("sink", "log", "stream") for o in info.outs) or info.fueled:
             self.effect_call(n, ctx, name, callee, info, cparms)
             return
         if any(o[0] != "out" for o in info.outs):
@@ -2015,7 +2292,7 @@ class FuncTranslator:
         if k == "MemberExpr":
             loc = self.lvalue(n, ctx)
             return self.read(ctx, loc, n), ctx.types[loc]
-        if k == "ArraySubscriptExpr" and not self.pointwise and self._is_bptr_type(node_type(n["inner"][0])):
+        if k == "ArraySubscriptExpr" and not self.pointwise and self._is_mem_ptr(n["inner"][0]):
             b, o = self.ev_bptr(n["inner"][0], ctx)
             if not b.startswith("src:"):
                 self.fail("read through a pointer that is written through", n)
@@ -2040,6 +2317,9 @@ class FuncTranslator:
                         # draco::VectorD<T, N>(const VectorD<U, N> &): component-wise `T(src[i])` (core/vector_d.h)
                         return f"({self.convert(a + '.1', at.to, t.to, n)}, {self.convert(a + '.2', at.to, t.to, n)})", t
             self.fail("constructor call", n)
+        if k == "CXXMemberCallExpr" and self.chain and len(n["inner"]) == 1 and \
+                n["inner"][0].get("name") in getattr(self, "abs_names", {}):
+            return self.abs_names[n["inner"][0]["name"]]
         if k in ("CallExpr", "CXXMemberCallExpr", "CXXOperatorCallExpr"):
             return self.call(n, ctx)
         self.fail("unsupported expression", n)
@@ -2147,7 +2427,9 @@ class FuncTranslator:
                 return "true", CT("bool")
         # a function of the translated set
         name, callee, info, cparms = self.resolve_callee(n, ctx)
-        if any(o[0] in ("sink", "log") for o in info.outs) or info.fueled:
+        if getattr(info, "optional", False):
+            self.fail(f"call of `{name}` which contains loops", n)
+        if any(o[0] in ("sink", "log", "stream") for o in info.outs) or info.fueled:
             return self.effect_call(n, ctx, name, callee, info, cparms)
         if len(info.outs) != 1 or info.outs[0][0] != "ret":
             self.fail(f"call of `{name}` which has output parameters or modifies the object", n)
@@ -2176,6 +2458,13 @@ class FuncTranslator:
 def _strip(n):
     while n.get("kind") in ("ImplicitCastExpr", "ParenExpr", "ExprWithCleanups", "MaterializeTemporaryExpr") and \
             (n.get("kind") != "ImplicitCastExpr" or n.get("castKind") in ("LValueToRValue", "NoOp", "UncheckedDerivedToBase", "DerivedToBase")):
+        n = n["inner"][0]
+    return n
+
+
+def _strip_casts(n):
+    while n.get("kind") in ("ImplicitCastExpr", "ParenExpr", "ExprWithCleanups", "MaterializeTemporaryExpr",
+                            "CXXStaticCastExpr", "CStyleCastExpr"):
         n = n["inner"][0]
     return n
 
@@ -2242,7 +2531,7 @@ def generate(repo, build_dir, workdir, whitelist=None):
         q = (w["cls"] + "::" if w.get("cls") else "") + w["fn"]
         try:
             decl = ix.find_function(w.get("cls"), w["fn"], w.get("params"), w.get("targs"))
-            tr.translate(decl)
+            tr.translate(decl, w)
         except XlateError as ex:
             failed.append((q, str(ex)))
             notes.append(f"xlate: {q} not translated: {ex}")
@@ -2267,8 +2556,9 @@ def generate(repo, build_dir, workdir, whitelist=None):
         for (f, t) in fields:
             out.append(f"  {lean_ident(f)} : {t.lean()}")
         out.append("deriving Repr, DecidableEq\n")
-    for i in tr.order:
-        info = tr.done[i]
+    for key in tr.order:
+        info = tr.done[key]
+        i = key.split("#")[0]
         d = ix.byid[i]
         cls = ix.class_of(d)
         loc = d.get("loc", {})
